@@ -113,6 +113,13 @@ pub fn gen_entries(c: &Case) -> Vec<VerifEntry> {
         next_seq_pool += r.range(1, 3);
         seqs.push(next_seq_pool);
     }
+    // sequence number 0 is a legal entry of a table (and the smallest possible seek key of its
+    // user key): in half of the tables the lowest number is 0, in some a few keys end on 0
+    if r.chance(1, 2) {
+        if let Some(m) = seqs.iter_mut().min() {
+            *m = 0;
+        }
+    }
     // shuffle the sequence numbers over the entries
     for i in (1..seqs.len()).rev() {
         let j = r.usize(i + 1);
